@@ -117,6 +117,12 @@ pub fn tok_eq(impl_t: &str, model_t: &str, m: Mode) -> bool {
 
 /// whole-line comparison: groups `;`, lists `,`
 pub fn line_eq(impl_l: &str, model_l: &str, m: Mode) -> bool {
+    line_eq_tols(impl_l, model_l, m, None)
+}
+
+/// as `line_eq`, with a per-position relative tolerance for the tokens of the first group
+/// (conditioning-aware comparison of cancellation-prone closed forms, DESIGN 5.1)
+pub fn line_eq_tols(impl_l: &str, model_l: &str, m: Mode, tols: Option<&[f64]>) -> bool {
     if impl_l == model_l {
         return true;
     }
@@ -125,14 +131,22 @@ pub fn line_eq(impl_l: &str, model_l: &str, m: Mode) -> bool {
     if gi.len() != gm.len() {
         return false;
     }
-    for (a, b) in gi.iter().zip(gm.iter()) {
+    for (gi_idx, (a, b)) in gi.iter().zip(gm.iter()).enumerate() {
         let ta: Vec<&str> = crate::proto::split_list(a);
         let tb: Vec<&str> = crate::proto::split_list(b);
         if ta.len() != tb.len() {
             return false;
         }
-        for (x, y) in ta.iter().zip(tb.iter()) {
-            if !tok_eq(x, y, m) {
+        for (i, (x, y)) in ta.iter().zip(tb.iter()).enumerate() {
+            let mut mm = m;
+            if gi_idx == 0 {
+                if let Some(t) = tols {
+                    if let Some(ti) = t.get(i) {
+                        mm.rel = mm.rel.max(*ti);
+                    }
+                }
+            }
+            if !tok_eq(x, y, mm) {
                 return false;
             }
         }
